@@ -306,5 +306,18 @@ MANIFEST_TEXT = {
              'Known finding K11 (spurious collision against an empty chunk) is carved out by its case predicate; the residual obligation is proved.'),
 }
 
-NOT_APPLICABLE = {i: 'not yet brought under contract in this round (see DESIGN.md section 8, build order); no claim is made'
-                  for i in ['C%02d' % k for k in range(1, 21)]}
+NOT_APPLICABLE = {
+    'C15': 'the property is about what SourceFileLoader.load_module / the bytecode cache / sys.modules / the file system do with files written by '
+           'earlier definitions; a contract for the tail of CodeGenerator.generate_code would only restate the property on top of ASSUMED contracts for '
+           'os, open, importlib (source-vs-bytecode selection by mtime and size, re-execution into an existing module namespace): the deciding content '
+           'would sit in unvalidated environment assumptions, not in verified code. No validated environment contract is within reach here, so no claim is made (DESIGN.md 6).',
+    'C16': 'quantifies over crash points of a writer process and interleavings of the file operations of several processes; contract-based verification of '
+           'sequential code has no handle on another process or on a crash between two system calls except an assumed rely/havoc model of the file system '
+           'and importer, which could not be validated in this round (DESIGN.md 6); the defects expected there (K16a-c of DESIGN.md 4.C16) are therefore not decided.',
+    'C18': 'the property is a statement about the language of regular-expression TEXT assembled by string operations (bin(), str.replace, int(s, 2), '
+           're.escape, %-formatting, b"".join) and interpreted by the re engine; Bits.pack_regexp and FragmentsOfRegexps are outside the python subset of the '
+           'VC generator, and a contract could only state the property relative to an assumed denotational semantics of pattern text, which would carry the '
+           'property itself. Not claimed in this round (DESIGN.md 6).',
+}
+for _i in ['C%02d' % k for k in range(1, 21)]:
+    NOT_APPLICABLE.setdefault(_i, 'not brought under contract in this round; no claim is made')
